@@ -7,6 +7,7 @@
 import Flumine.SimLoop
 import Flumine.Lemmas.WorldLemmas
 import Flumine.Lemmas.Cents
+import Flumine.Lemmas.Closed
 import Mathlib.Data.List.Nodup
 import Mathlib.Tactic.Linarith
 namespace Flumine.C20
@@ -160,5 +161,66 @@ theorem simulation_keeps_markets (w : World) (mid : Nat) (f : Market → Market)
   intro m _
   simp only [Function.comp]
   split_ifs <;> simp [hf]
+
+
+/-! ### C20 for whole runs: "exactly once for each closing update received" (`Lemmas/Closed.lean` over Strat / Mids / Cc) -/
+
+open Flumine.Closed Flumine.Inv in
+/-- C20 whole-run: take ANY run - any sequence of updates of any markets in any interleaving (repeated closes, close then
+    re-open, closes of markets never seen open), any scripted behaviour of any strategies, packages, matching, removals.  The
+    `process_closed_market` callbacks observed in the whole run, in order, and the markets the framework knows at the end, are
+    exactly what this specification computes from the updates alone: a closing update of a market seen before appends one
+    callback per strategy subscribed to the book's stream (or with an empty filter), in registration order, with that book's
+    publish time; a closing update of a market never seen appends nothing; any other update appends nothing and makes the
+    market known.  Nothing the strategies do, and no other part of the framework, adds, drops, duplicates or reorders a
+    closed-market callback. -/
+theorem closed_callbacks_whole_run (cfg : Config) (cl : List Client) (ss : List Strategy)
+    (us : List (Nat × Book × (Nat → List Action))) :
+    ((runUpdates { cfg := cfg, clients := cl, strategies := ss } us).mids, (runUpdates { cfg := cfg, clients := cl, strategies := ss } us).cc) =
+      us.foldl (specStep ss) ([], []) :=
+  runUpdates_spec { cfg := cfg, clients := cl, strategies := ss } us
+
+open Flumine.Closed Flumine.Inv in
+/-- the same from any reachable state on: what a continuation adds depends on the markets known and the updates only -/
+theorem closed_callbacks_continuation (w : World) (us : List (Nat × Book × (Nat → List Action))) :
+    ((runUpdates w us).mids, (runUpdates w us).cc) = us.foldl (specStep w.strategies) (w.mids, w.cc) :=
+  runUpdates_spec w us
+
+open Flumine.Closed in
+/-- what one closing update of a known market owes (`callbacksFor`) is `closeCallbacks`: exactly the subscribed strategies
+    (`callback_for_subscribed`, `no_callback_for_others`), each once when strategy ids are distinct (`callback_once`) -/
+theorem callbacksFor_is_closeCallbacks (w : World) (mid : Nat) (book : Book) :
+    callbacksFor w.strategies mid book = w.closeCallbacks mid book := rfl
+
+open Flumine.Closed in
+/-- one closing update: callbacks appended iff the market is known; the known markets do not change -/
+theorem specStep_closed (ss : List Strategy) (K : List Nat) (evs : List Ev) (mid : Nat) (book : Book) (sc : Nat → List Action)
+    (h : book.status = .closed) :
+    specStep ss (K, evs) (mid, book, sc) = (K, evs ++ (if mid ∈ K then callbacksFor ss mid book else [])) := by
+  unfold specStep; simp [h]
+
+open Flumine.Closed in
+/-- any other update: no callback; the market is known afterwards -/
+theorem specStep_open (ss : List Strategy) (K : List Nat) (evs : List Ev) (mid : Nat) (book : Book) (sc : Nat → List Action)
+    (h : book.status ≠ .closed) :
+    (specStep ss (K, evs) (mid, book, sc)).2 = evs ∧ mid ∈ (specStep ss (K, evs) (mid, book, sc)).1 := by
+  unfold specStep
+  simp only [h, if_false]
+  refine ⟨trivial, ?_⟩
+  split
+  · assumption
+  · simp
+
+/-- non-vacuity: two strategies (one subscribed to stream 0, one with an empty filter, one subscribed elsewhere); market 1 opens,
+    closes, closes again (amended result), re-opens and closes; market 2 closes without ever having been seen: three closing
+    updates of market 1 give 3 x 2 callbacks in registration order, market 2 gives none -/
+def nvSs : List Strategy := [{ id := 0, streams := [0] }, { id := 1, streams := [7] }, { id := 2, emptyFilter := true }]
+def nvB (pt : Int) (st : MStatus) : Book := { pt := pt, status := st, activeRunners := 1, runners := [{ sel := 1 }] }
+def nvUs : List (Nat × Book × (Nat → List Action)) :=
+  [(1, nvB 1000 .open_, fun _ => []), (1, nvB 2000 .closed, fun _ => []), (1, nvB 2500 .closed, fun _ => []),
+   (2, nvB 2600 .closed, fun _ => []), (1, nvB 3000 .open_, fun _ => []), (1, nvB 4000 .closed, fun _ => [])]
+example : (Inv.runUpdates { strategies := nvSs } nvUs).cc =
+    [.closedCallback 0 1 2000, .closedCallback 2 1 2000, .closedCallback 0 1 2500, .closedCallback 2 1 2500,
+     .closedCallback 0 1 4000, .closedCallback 2 1 4000] ∧ (Inv.runUpdates { strategies := nvSs } nvUs).mids = [1] := by decide +kernel
 
 end Flumine.C20
